@@ -330,6 +330,13 @@ class WrapperEquals(Contract):
         self.arg_name, self.my_name = z3.String("argument_method_name"), z3.String("my_method_name")
         self.alive, self.method_listener = z3.Bool("my_owner_alive"), z3.Bool("i_am_a_method_listener")
         cx.module_globals["MethodType"] = cx.const("MethodType")
+        # `==` between two owner objects is an arbitrary equivalence (value-based __eq__: two distinct listeners may compare
+        # equal); the wrapper must identify its owner by IDENTITY
+        eqv = z3.Function("objects_compare_equal", Val, Val, z3.BoolSort())
+        x_, y_ = z3.Consts("x!oe y!oe", Val)
+        cx.axioms += [z3.ForAll([x_], eqv(x_, x_)), z3.ForAll([x_, y_], eqv(x_, y_) == eqv(y_, x_))]
+        if ov.startswith("bound-method-argument"):
+            cx.val_eq = lambda a, b: eqv(a, b)
         is_method = ov.startswith("bound-method-argument")
         cx.module_globals["type"] = VFunc("opaque", name="type", apply=lambda I2, a, kw, st, k: k(
             cx.const("MethodType") if (is_method and isinstance(a[0], VElem) and a[0].t.eq(self.arg)) else VElem(z3.Const("some_other_type", Val)), st))
